@@ -17,7 +17,9 @@ import (
 	"pgregory.net/rapid"
 )
 
-var c08Kinds = []string{"noop", "draw", "skipB", "skipA", "fatal", "errorf", "panic", "errorE"}
+var c08Never = rapid.Bool().Filter(func(bool) bool { return false })
+
+var c08Kinds = []string{"noop", "draw", "skipB", "skipA", "fatal", "errorf", "panic", "errorE", "errorfReject"}
 
 type c08Trace struct {
 	ev     []string
@@ -57,6 +59,11 @@ func c08Action(tr *c08Trace, name, kind string) func(t *rapid.T) {
 		case "panic":
 			tr.log("E:fail")
 			panic("action " + name + " panics")
+		case "errorfReject":
+			// a non-fatal failure, then a draw that is rejected: the action ends as invalid data, but it has falsified
+			tr.log("E:fail")
+			t.Errorf("action %s fails non-fatally", name)
+			c08Never.Draw(t, "never") // five tries of one bit each: the run goes on within the explored depth
 		case "errorE":
 			tr.log("E:fail")
 			t.Error() // a non-fatal failure without any message
@@ -487,7 +494,7 @@ func init() {
 	Register(&Check{
 		ID:    "C08",
 		Level: "model_checking",
-		Rule: "E1 bitdfs over T.Repeat for action sets of 1-3 actions from 8 kinds {noop, draws, skips before drawing, skips after drawing, Fatalf, Errorf, panic, Error() without message} (quick: multisets; thorough: all assignments) x 7 invariant variants " +
+		Rule: "E1 bitdfs over T.Repeat for action sets of 1-3 actions from 9 kinds {noop, draws, skips before drawing, skips after drawing, Fatalf, Errorf, panic, Error() without message, Errorf followed by a rejected draw} (quick: multisets; thorough: all assignments) x 7 invariant variants " +
 			"{absent, passing, Fatalf at call 1/2/3, Errorf at call 1/2} and a reflective StateMachineActions machine; bitstreams around all-zero, all-ones and 'continue/first action' bases within the depth/deviation bounds. " +
 			"Oracle: regular-language monitor over the event trace: inv (act_ok inv | act_skipped)*, nothing after the first falsification, never two callbacks active, all-skip => 'can't find a valid action' failure after exactly 100 tries. " +
 			"distinct = distinct (verdict, event trace) per unit; non-trivial = at least one action was attempted.",
